@@ -53,7 +53,9 @@ type canonOracle struct{}
 func (canonOracle) Cmp(a, b pred.Val) (int, bool) {
 	ca, ok1 := pred.Canon(a)
 	cb, ok2 := pred.Canon(b)
-	if ok1 && ok2 && ca.Root == cb.Root && ca.C == cb.C {
+	// equal canonical forms, extension included: sext(x mod 2^32) and zext(x mod 2^32) are the same 32 bits but not
+	// the same integer (a year read without sign extension differs from the calendar year for every negative year)
+	if ok1 && ok2 && ca.Root == cb.Root && ca.C == cb.C && ca.Ext == cb.Ext && (ca.Ext == "" || ca.Width == cb.Width) {
 		return 0, true
 	}
 	return 0, false
